@@ -1,73 +1,120 @@
 import MindsVerif.Lemmas.WalkLift
 import MindsVerif.Lemmas.WalkSame
-/-! T13.1 for visitors that replace only *walk leaves* (nodes of a class whose branch traverses
-nothing, e.g. `Parameter`): the calls are still the textual preorder (used by C12). -/
+/-! T13.1 (order, coverage, flags) for visitors that replace only *walk leaves* (nodes of a class whose
+branch traverses nothing, e.g. `Parameter`; in particular for visitors that never replace): on an `okTree`
+the calls are the textual preorder of the required nodes, looking through container slots. -/
 namespace MindsVerif.Walk
 variable {S : Type}
 
 def GoodLog (σ : Schema) (k : Node) (f : Tr S) : Prop :=
-  okTree σ k = true → ∀ a b pq st, (f a b pq st).log.map Visit.key = expected σ k a b
+  okTree σ k = true → ∀ a b pq st, (f a b pq st).log.map Visit.key = expectedX σ k true a b
+
+/-- a container occupant looked through by an entry `e` -/
+def GoodVia (σ : Schema) (k : Node) (g : Nat → Tr S) : Prop :=
+  ∀ (e : Entry) q, e.via = some q → contCond (σ.row k.cls) e (slotsOf k.kids) = true →
+    okKids σ (σ.row k.cls) k.kids = true →
+    ∀ pq st, (g q e.isTable e.isTarget pq st).log.map Visit.key = expectedX σ k false e.isTable e.isTarget
+
+abbrev GL (σ : Schema) (it : Item S) (k : Node) : Prop := it.node = k ∧ GoodLog σ k it.tr ∧ GoodVia σ k it.via
 
 theorem runEntry_goodlog (σ : Schema) (e : Entry) (pq' : Nat) :
-    ∀ (its : List (Item S)) ks, All2 (fun it k => it.node = k ∧ GoodLog σ k it.tr ∧ True) its ks →
-      okTreeL σ ks = true → (e.via = none ∨ ∀ k ∈ ks, k.slot ≠ e.slot) → ∀ cur st, cur.length = ks.length →
-      (runEntry e pq' its cur st).2.2.map Visit.key
-        = ((expectedL σ ks).filter (fun f => f.1 = e.slot)).flatMap (fun f => f.2 e.isTable e.isTarget) := by
+    ∀ (its : List (Item S)) ks, All2 (GL σ) its ks →
+      (∀ k ∈ ks, k.slot = e.slot → KidQ σ e k) → ∀ cur st, cur.length = ks.length →
+      (runEntry e pq' its cur st).2.2.map Visit.key = Hx σ ks (e.slot, e.via.isNone, e.isTable, e.isTarget) := by
   intro its ks h
   induction h with
-  | nil => intro _ _ cur st _; cases cur <;> simp [runEntry, expectedL]
+  | nil => intro _ cur st _; cases cur <;> simp [runEntry, Hx, expectedL]
   | @cons it k its ks hk _ ih =>
-    intro hok hvia cur st hl
-    have hvia' : e.via = none ∨ ∀ k' ∈ ks, k'.slot ≠ e.slot := by
-      cases hvia with
-      | inl h => exact .inl h
-      | inr h => exact .inr (fun k' hk' => h k' (List.mem_cons_of_mem _ hk'))
+    intro hQ cur st hl
     cases cur with
     | nil => simp at hl
     | cons c cs =>
       have hl' : cs.length = ks.length := by simpa using hl
-      simp only [okTreeL, Bool.and_eq_true] at hok
-      obtain ⟨hn, hg, _⟩ := hk
+      obtain ⟨hn, hg, hv⟩ := hk
       by_cases hs : it.node.slot = e.slot
       · have hs' : k.slot = e.slot := hn ▸ hs
-        have he : e.via = none := by
-          cases hvia with
-          | inl h => exact h
-          | inr h => exact absurd hs' (h k (List.mem_cons_self ..))
-        have g := hg hok.1 e.isTable e.isTarget pq' st
-        have r := ih hok.2 hvia' cs (it.tr e.isTable e.isTarget pq' st).st hl'
-        simp only [runEntry, hs, if_true, he]
-        simp [expectedL, hs', g, r]
-      · have r := ih hok.2 hvia' cs st hl'
+        have hq := hQ k (List.mem_cons_self ..) hs'
+        unfold KidQ at hq
+        cases hvia : e.via with
+        | none =>
+          rw [hvia] at hq
+          have g := hg hq e.isTable e.isTarget pq' st
+          have r := ih (KidQ.tail hQ) cs (it.tr e.isTable e.isTarget pq' st).st hl'
+          simp only [runEntry, hs, if_true, hvia]
+          simp only [Hx, hvia] at r ⊢
+          simp [expectedL, hs', g, r]
+        | some q =>
+          rw [hvia] at hq
+          have g := hv e q hvia hq.1 hq.2 pq' st
+          have r := ih (KidQ.tail hQ) cs (it.via q e.isTable e.isTarget pq' st).st hl'
+          simp only [runEntry, hs, if_true, hvia]
+          simp only [Hx, hvia] at r ⊢
+          simp [expectedL, hs', g, r]
+      · have r := ih (KidQ.tail hQ) cs st hl'
         have hs' : k.slot ≠ e.slot := hn ▸ hs
         simp only [runEntry, hs, if_false]
+        simp only [Hx] at r ⊢
         simp [expectedL, hs', r]
 
 theorem runRow_goodlog (σ : Schema) (cb : Cb S) (c pq : Nat)
-    (its : List (Item S)) (ks : List Node)
-    (h : All2 (fun it k => it.node = k ∧ GoodLog σ k it.tr ∧ True) its ks) (hok : okTreeL σ ks = true) :
-    ∀ (es : List Entry), es.all (cleanFor (slotsOf ks)) = true → ∀ cur st, cur.length = ks.length →
+    (its : List (Item S)) (ks : List Node) (h : All2 (GL σ) its ks) :
+    ∀ (es : List Entry), es.all (cleanFor (slotsOf ks)) = true →
+      (∀ e ∈ es, ∀ k ∈ ks, k.slot = e.slot → KidQ σ e k) → ∀ cur st, cur.length = ks.length →
       (runRow cb c pq es its cur st).2.2.map Visit.key
-        = es.flatMap (fun e => ((expectedL σ ks).filter (fun f => f.1 = e.slot)).flatMap
-            (fun f => f.2 e.isTable e.isTarget)) := by
+        = es.flatMap (fun e => Hx σ ks (e.slot, e.via.isNone, e.isTable, e.isTarget)) := by
   intro es
   induction es with
-  | nil => intro _ cur st _; simp [runRow]
+  | nil => intro _ _ cur st _; simp [runRow]
   | cons e es ih =>
-    intro hc cur st hl
-    simp only [List.all_cons, Bool.and_eq_true, cleanFor] at hc
-    obtain ⟨⟨hv, hn⟩, hrest⟩ := hc
-    have he := via_of_clean ks e hv
-    have hcond : (e.noneVisit && !hasSlot its e.slot) = false := by
-      rw [hasSlot_eq its ks _ (fun _ _ hh => hh.1) h]
-      cases hnv : e.noneVisit <;> simp [hnv] at hn ⊢
-      exact hn
+    intro hc hQ cur st hl
+    simp only [List.all_cons, Bool.and_eq_true] at hc
+    have hcond := noNone_cond its ks _ (fun _ _ hh => hh.1) h e hc.1
     simp only [runRow, hcond]
-    have r1 := runEntry_goodlog σ e (e.pqFor c pq) its ks h hok he cur st hl
+    have r1 := runEntry_goodlog σ e (e.pqFor c pq) its ks h (hQ e (List.mem_cons_self ..)) cur st hl
     simp only [Bool.false_eq_true, if_false]
-    have r2 := ih hrest (runEntry e (e.pqFor c pq) its cur st).1 (runEntry e (e.pqFor c pq) its cur st).2.1
+    have r2 := ih hc.2 (fun e' he' => hQ e' (List.mem_cons_of_mem _ he'))
+      (runEntry e (e.pqFor c pq) its cur st).1 (runEntry e (e.pqFor c pq) its cur st).2.1
       (by rw [runEntry_length, hl])
     simp [r1, r2]
+
+theorem filter_eq_nil_absent (l : List Nat) (q : Nat) (h : l.filter (· == q) = []) : l.contains q = false := by
+  induction l with
+  | nil => rfl
+  | cons x xs ih =>
+    simp only [List.filter_cons] at h
+    by_cases hx : (x == q) = true
+    · simp [hx] at h
+    · simp only [hx] at h
+      have hx' : (x == q) = false := by simpa using hx
+      have := ih h
+      simp only [List.contains_cons, this, Bool.or_false]
+      rw [BEq.comm]; exact hx'
+
+/-- looking through a container: the log is that of the only child in slot `q` -/
+theorem viaRun_goodlog (σ : Schema) (q : Nat) (a b : Bool) (pq : Nat) :
+    ∀ (its : List (Item S)) gs, All2 (GL σ) its gs → (slotsOf gs).filter (· == q) = [q] →
+      (∀ g ∈ gs, g.slot = q → okTree σ g = true) → ∀ st,
+      (viaRun q a b pq its gs st).2.2.2.map Visit.key = Hx σ gs (q, true, a, b) := by
+  intro its gs h
+  induction h with
+  | nil => intro hc; simp [slotsOf] at hc
+  | @cons it k its gs hk _ ih =>
+    intro hc hok st
+    obtain ⟨hn, hg, _⟩ := hk
+    simp only [slotsOf, List.filter_cons] at hc
+    by_cases hs : it.node.slot = q
+    · have hs' : k.slot = q := hn ▸ hs
+      have hrest : (slotsOf gs).filter (· == q) = [] := by simpa [hs'] using hc
+      have habs := filter_absent σ q gs (filter_eq_nil_absent _ _ hrest)
+      have g := hg (hok k (List.mem_cons_self ..) hs') a b pq st
+      simp only [viaRun, hs, if_true]
+      simp [Hx, expectedL, hs', g, habs]
+    · have hs' : k.slot ≠ q := hn ▸ hs
+      have hc' : (slotsOf gs).filter (· == q) = [q] := by simpa [hs'] using hc
+      have r := ih hc' (fun g hg' => hok g (List.mem_cons_of_mem _ hg')) st
+      simp only [viaRun, hs, if_false]
+      simp only [Hx] at r ⊢
+      simp [expectedL, hs', r]
 
 /-- the visitor replaces only nodes whose class has an empty branch -/
 def LeafOnly (σ : Schema) (cb : Cb S) : Prop :=
@@ -75,26 +122,39 @@ def LeafOnly (σ : Schema) (cb : Cb S) : Prop :=
 
 theorem goodlog_all (σ : Schema) (cb : Cb S) (hcb : LeafOnly σ cb) : ∀ t, GoodLog σ t (tr σ cb t) := by
   intro t
-  refine (tr_ind σ cb (GoodLog σ) (fun _ _ => True) ?_ t).1
+  refine (tr_ind σ cb (GoodLog σ) (GoodVia σ) ?_ t).1
   intro c s t ks its h
-  refine ⟨?_, trivial⟩
-  intro hok a b pq st
-  simp only [okTree, Bool.and_eq_true] at hok
-  simp only [step]
-  cases hr : (cb st (some (.mk c s t ks)) a b pq).1 with
-  | some x =>
-    obtain ⟨m, hm, hw⟩ := hcb _ _ _ _ _ _ hr
-    have hm' : m = .mk c s t ks := by injection hm with hm; exact hm.symm
-    subst hm'
-    have hp := row_eq_print σ (σ.row c) ks hok.1
-    simp only [Node.cls] at hw
-    rw [hw] at hp
-    simp only [List.map_cons, List.map_nil, expected, Visit.key, Visit.tag, Option.map, Node.tag]
-    simp only [List.flatMap_nil] at hp
-    rw [← hp]
-  | none =>
-    have hrow := runRow_goodlog σ cb c pq its ks h hok.2 (σ.row c).walk (nodeOK_clean _ _ hok.1) ks
-      (cb st (some (.mk c s t ks)) a b pq).2 rfl
-    simp only [List.map_cons, hrow, row_eq_print σ _ ks hok.1, expected, Visit.key, Visit.tag, Option.map, Node.tag]
+  refine ⟨?_, ?_⟩
+  · intro hok a b pq st
+    simp only [okTree, Bool.and_eq_true] at hok
+    simp only [step]
+    cases hr : (cb st (some (.mk c s t ks)) a b pq).1 with
+    | some x =>
+      obtain ⟨m, hm, hw⟩ := hcb _ _ _ _ _ _ hr
+      have hm' : m = .mk c s t ks := by injection hm with hm; exact hm.symm
+      subst hm'
+      have hp := row_eq_print σ (σ.row c) ks hok.1
+      simp only [Node.cls] at hw
+      rw [hw] at hp
+      simp only [List.flatMap_nil] at hp
+      simp [expectedX, ← hp, Visit.key, Visit.tag, Node.tag]
+    | none =>
+      have hrow := runRow_goodlog σ cb c pq its ks h (σ.row c).walk (nodeOK_clean _ _ hok.1)
+        (fun e he => kidQ_of_ok σ (σ.row c) ks hok.1 hok.2 e he) ks
+        (cb st (some (.mk c s t ks)) a b pq).2 rfl
+      simp [expectedX, hrow, row_eq_print σ _ ks hok.1, Visit.key, Visit.tag, Node.tag]
+  · intro e q hvia hcc hkk pq st
+    simp only [Node.cls, Node.kids] at hcc hkk
+    simp only [contCond, hvia, Bool.and_eq_true] at hcc
+    obtain ⟨⟨⟨⟨⟨c1, c2⟩, c3⟩, c4⟩, c5⟩, c6⟩ := hcc
+    have hq : (slotsOf ks).filter (· == q) = [q] := eq_of_beq c5
+    have hokq : ∀ g ∈ ks, g.slot = q → okTree σ g = true := by
+      intro g hg hs
+      exact (okKids_mem σ (σ.row c) ks hkk g hg).1 (by rw [hs]; exact c2)
+    have hv := viaRun_goodlog σ q e.isTable e.isTarget pq its ks h hq hokq st
+    simp only [viaStep, hv, expectedX, Bool.false_eq_true, if_false, List.nil_append]
+    rw [combineP_present, eq_of_beq c1]
+    simp only [List.flatMap_cons, List.flatMap_nil, List.append_nil]
+    rw [c2, eq_of_beq c3, eq_of_beq c4]
 
 end MindsVerif.Walk
